@@ -191,6 +191,12 @@ def main():
                 lines = cov.stop()
     except BaseException:
         ctx.harness_errors.append(traceback.format_exc())
+    try:
+        from . import gen
+        for form, n in gen.FORMS_USED.items():
+            ctx.count("event_argument_form." + form, n)
+    except Exception:  # noqa: BLE001
+        pass
     res = ctx.result()
     res["lines"] = lines
     tmp = a["out"] + ".tmp"
